@@ -38,8 +38,8 @@ var wForeignKey = "03da7e0c5c6ca123447d6106eabbe0db9bcd4ea1753b19b37e14113e5f709
 func wSignAll(c *wCtx, in *wInst, m *wModel, full bool) (clause, site, msg string) {
 	type kk struct {
 		seed, b int
-		i    uint32
-		pk   string
+		i       uint32
+		pk      string
 	}
 	var keys []kk
 	for seed, k := range m.Ks {
